@@ -272,15 +272,12 @@ func checkHookResults(t *testing.T, col *evid.Collector) {
 
 func replay(t *testing.T, col *evid.Collector, db *refDB, path string) {
 	var rc replayCase
-	if err := evid.LoadReplay(path, &rc); err != nil {
+	if b, err := os.ReadFile(path); err == nil && !strings.HasPrefix(strings.TrimSpace(string(b)), "{") {
+		// a bare Lua file: confinement verdict and timing verdict for that script
+		rc = replayCase{Kind: "script", Script: string(b)}
+	} else if err := evid.LoadReplay(path, &rc); err != nil {
 		col.Fail("replay: " + err.Error())
 		return
-	}
-	if rc.Kind == "" && rc.Script == "" {
-		// a bare Lua file is accepted too
-		if b, err := os.ReadFile(path); err == nil && !strings.HasPrefix(strings.TrimSpace(string(b)), "{") {
-			rc = replayCase{Kind: "script", Script: string(b)}
-		}
 	}
 	switch rc.Kind {
 	case "libwrite":
@@ -311,7 +308,16 @@ func replay(t *testing.T, col *evid.Collector, db *refDB, path string) {
 	case "reach":
 		checkReachability(t, col, db)
 	case "escape", "script":
-		// confinement verdict in-process, then the timing verdict in a child
+		// timing verdict first, in a child (an arbitrary script may never come back);
+		// the confinement verdict in-process only if the script returned in time
+		if rc.Kind == "script" {
+			before := col.NumViolations()
+			judgeNonTerm(col, ntScript{Kind: "replayed-script", Family: "vm", Script: rc.Script}, 30*time.Second)
+			if col.NumViolations() > before {
+				fmt.Println("replay script: did not return in time; confinement walk skipped")
+				return
+			}
+		}
 		o, err := runEscapeScript(db, rc.Script, 0)
 		if err != nil {
 			col.Fail(err.Error())
@@ -320,9 +326,6 @@ func replay(t *testing.T, col *evid.Collector, db *refDB, path string) {
 		col.Inc("evaluations")
 		fmt.Printf("replay script: code=%d err=%v nodes=%d edges=%d denied=%d\n", o.code, o.err, o.nodes, o.edges, len(o.findings))
 		reportFindings(col, "escape", o.findings, rc)
-		if rc.Kind == "script" {
-			judgeNonTerm(col, ntScript{Kind: "replayed-script", Family: "vm", Script: rc.Script}, 30*time.Second)
-		}
 	default:
 		col.Fail("replay: unknown kind " + rc.Kind)
 	}
